@@ -1,6 +1,7 @@
 package checks
 
 import (
+	"strings"
 	"bytes"
 	"encoding/json"
 	"fmt"
@@ -120,7 +121,7 @@ func richParams(ts tsInfo, cd gcodec.Codec) gcodec.Parameters {
 }
 
 func c10Frame(a c10Case, sym int) []byte {
-	k := map[int]int{0: -1, 1: 0, 2: 1, 3: 4}[sym]
+	k := map[int]int{0: -1, 1: 0, 2: 1, 3: 4, 4: 301, 5: 1001}[sym]
 	bs := a.BS
 	if sym == 0 {
 		n := a.W * a.H * a.SPP * a.BA / 8
@@ -800,6 +801,22 @@ func c10(c *eng.Ctx) {
 							seq := make([]int, l)
 							eng.SeqAt(4, l, k, seq)
 							jobs = append(jobs, c10Case{TS: ti, W: sz[0], H: sz[1], BA: f[0], BS: f[1], SPP: spp, Seq: seq})
+							// two more frame symbols in short sequences: 4 = flat with isolated +-1 samples next to one full-scale
+							// sample (most coding passes, most zero bit-planes), 5 = saturated two-colour lattice
+							if l <= 2 && k < cnt {
+								for e := 4; e <= 5; e++ {
+									s2 := append([]int(nil), seq...)
+									s2[l-1] = e
+									if l == 2 && k%4 != 0 {
+										continue
+									}
+									jobs = append(jobs, c10Case{TS: ti, W: sz[0], H: sz[1], BA: f[0], BS: f[1], SPP: spp, Seq: s2})
+								}
+							}
+							// the JPEG 2000 family reads PixelRepresentation: signed frames too (short sequences)
+							if l <= 2 && (strings.HasPrefix(ts.Name, ".9") || strings.HasPrefix(ts.Name, ".2")) {
+								jobs = append(jobs, c10Case{TS: ti, W: sz[0], H: sz[1], BA: f[0], BS: f[1], SPP: spp, Signed: true, Seq: append([]int(nil), seq...)})
+							}
 							if l <= 2 {
 								jobs = append(jobs, c10Case{TS: ti, W: sz[0], H: sz[1], BA: f[0], BS: f[1], SPP: spp, Seq: append([]int(nil), seq...), PM: 1})
 							}
